@@ -1062,8 +1062,16 @@ def oracle_read(ctx, E, fx, case, op, f, rep):
             it = elem_item(E, p.datatype.subtype, obj._values[p.identifier].value[idx])
             if "enc" in it and (rep.get("r") != "ack" or rep.get("hex") != hex_of_tags(it["enc"])):
                 bad("array-index", "element %d answered %r, stored %s" % (idx, rep, hex_of_tags(it["enc"])))
-    elif rep.get("r") == "error" and rep.get("cls") == "device":
-        bad("read-fails", "present property answered %r" % (rep,))
+    else:
+        # the whole value: what is stored, encoded element by element (skipped when an
+        # element is an un-initialised fix_length default that has no encoding)
+        obj, p = f["obj"], f["prop"]
+        pv = pval_of(E, p.datatype, obj._values.get(p.identifier))
+        items = [pv["one"]] if "one" in pv else pv.get("arr", pv.get("lst"))
+        if items is not None and all("enc" in it for it in items):
+            want = "".join(hex_of_tags(it["enc"]) for it in items)
+            if rep.get("r") != "ack" or rep.get("hex") != want:
+                bad("read-fails", "present property answered %r, stored %s" % (rep, want[:80]))
 
 
 def oracle_write(ctx, E, fx, case, op, f, rep, before, after, wire):
@@ -1104,7 +1112,9 @@ def oracle_write(ctx, E, fx, case, op, f, rep, before, after, wire):
         bad("error-matches", "answered device/operationalProblem (vclass=%s)" % op.get("vclass"), logged=E.vt.errors[:2])
         return
     p = f["prop"]
-    typed = op.get("vclass") == "typed"
+    # "typed" = generated from the datatype AND accepted by the library's own decoder on the
+    # client side (a value the codec cannot take back is C03's business, not a C15 refusal)
+    typed = op.get("vclass") == "typed" and wire.get("dec") == "ok"
     pure_pa = f["is_cmd"] and p.identifier == "priorityArray"
     if typed and not p.mutable and not (f["is_cmd"] and p.identifier in ("presentValue", "priorityArray")):
         if not is_err(rep, "property", "writeAccessDenied"):
@@ -1116,7 +1126,7 @@ def oracle_write(ctx, E, fx, case, op, f, rep, before, after, wire):
     if op.get("vclass") == "range" and acked:
         bad("typed", "a value beyond the limit of the property's Unsigned datatype was acknowledged")
         return
-    if f["is_cmd"] and p.identifier == "presentValue" and op.get("vclass") in ("typed", "null"):
+    if f["is_cmd"] and p.identifier == "presentValue" and (typed or op.get("vclass") == "null"):
         valid_prio = op["prio"] is None or 1 <= op["prio"] <= 16
         if valid_prio and not acked:
             bad("priority", "a command at priority %r was refused with %r" % (op["prio"], rep))
